@@ -40,6 +40,10 @@ NASTY = [
     "'; DROP TABLE DECOY; --", "' OR '1'='1", "x') ; DELETE FROM DECOY; --", "\"quoted\"", "`tick`", "héllo", "✓ ✗", "日本語", "🎉 party",
     "a\u0301", " lead", "trail ", "  ", "ACME      00042     EUR", "a \t b", "nb\u00a0sp", "em\u2003 sp", "x  ", "NULL", "null", "TRUE", "1", "1.5", "{\"k\": \"v\"}", "[1,2]", "%' OR '%'='", "_", "%_%",
 ]
+# strings that are words of the SQL fakesnow looks for when it picks statements apart
+KEYWORDS = ["unset", "UNSET", "Unset", "set", "SET", "select", "null", "default", "identifier", "merge", "begin", "commit", "use", "describe",
+            "flatten", "current_database", "$", "unset v1", "SET v1 = 0"]
+NASTY += KEYWORDS
 TYPED = [
     ("I", 0), ("I", 1), ("I", -1), ("I", 2**31), ("I", -(2**63)), ("I", 2**63 - 1),
     ("F", 0.0), ("F", 1.5), ("F", -2.25), ("F", 1e300), ("F", 5e-324), ("F", 123456.789),
@@ -81,6 +85,9 @@ FUNCTIONS = [
     ("ARRAY_SIZE", "SELECT ARRAY_SIZE(PARSE_JSON({0}))", ["[1, 2, 3]"]),
     ("JSON_PATH", "SELECT PARSE_JSON({0}):a::INT", ['{"a": 7}']),
     ("IDENTIFIER", "SELECT COUNT(*) FROM IDENTIFIER({0})", ["DECOY"]),
+    ("OBJECT_CONSTRUCT", "SELECT OBJECT_CONSTRUCT('name', {0}, 'id', {1}, 'city', {2})", ["bob", 7, "it's"]),
+    ("OBJECT_CONSTRUCT-null", "SELECT OBJECT_CONSTRUCT('z', {0}, 'skipped', NULL, 'a', {1})", ["last", "first"]),
+    ("ARRAY_CONSTRUCT", "SELECT ARRAY_CONSTRUCT({0}, {1}, {2})", ["b", "a", "c"]),
     ("CASE", "SELECT CASE WHEN {0} > {1} THEN {2} ELSE {3} END", [2, 1, "big", "small"]),
     ("BETWEEN", "SELECT ID FROM DECOY WHERE ID BETWEEN {0} AND {1} ORDER BY ID", [2, 4]),
     ("ORDER-LIMIT", "SELECT ID FROM DECOY WHERE S <> {0} ORDER BY ID LIMIT {1} OFFSET {2}", ["zz", 3, 1]),
@@ -98,6 +105,13 @@ def _rand_string(r: random.Random) -> str:
 def gen_cases(tier: str, seed: int):
     r = random.Random(f"{seed}:C08")
     n = 4000 if tier == "quick" else 60000
+    for fn in range(len(FUNCTIONS)):
+        for style in STYLES:
+            yield {"kind": "in_function", "style": style, "fn": fn}
+    for kw in KEYWORDS:
+        for style in STYLES:
+            for pos in ("select_list", "values") if tier == "quick" else ("select_list", "values", "where_eq", "update_set", "in_list"):
+                yield core.jsonable({"kind": "param", "style": style, "pos": pos, "type": "S", "val": kw, "val2": "unset", "var": False})
     for i in range(n):
         style = STYLES[i % 4]
         x = r.random()
